@@ -2,6 +2,7 @@
 import random
 from fractions import Fraction as Fr
 
+import json
 import common as C
 import demog
 import gen
@@ -312,6 +313,30 @@ def run(res, replay=None):
                 pops = r['pops']
                 for e in (spec.get('events') or []) + (spec.get('added_events') or []):
                     if e['type'] != 'PopulationSplit':
+                        continue
+                    # a specification that ALSO sets the rate derived -> ancestral explicitly at the very time of the split gives two
+                    # instructions for one entry at one time (which one wins is an order of application the property does not fix): the
+                    # split oracle does not apply to it
+                    key_ = f"{e['derived']}>{e['ancestral']}"
+                    def sets_key_at(ev, tm):
+                        ty = ev.get('type')
+                        if ty == 'MigrationRateChange':
+                            return f"{ev['source']}>{ev['dest']}" == key_ and float(ev['time']) == tm
+                        if ty == 'MigrationRateChanges':
+                            return any(float(t_) == tm for t_ in (ev['rates'].get(key_) or {}))
+                        if ty == 'SymmetricMigrationRateChanges':
+                            rt = ev['rate'] if isinstance(ev['rate'], dict) else {'0.0': ev['rate']}
+                            return e['derived'] in ev['pops'] and e['ancestral'] in ev['pops'] and any(float(t_) == tm for t_ in rt)
+                        if ty == 'DiscreteRateChanges':
+                            return any(float(t_) == tm for t_ in ((ev.get('migration_rates') or {}).get(key_) or {}))
+                        if ty in ('DiscretizedRateChange', 'DiscretizedRateChanges', 'ExponentialRateChanges'):
+                            return key_ in json.dumps(ev)      # a trajectory on this entry: its grid may hit the split time
+                        return False
+                    top_ = (spec.get('migration_rates') or {}).get(key_)
+                    top_ = top_ if isinstance(top_, dict) else ({'0.0': top_} if top_ is not None else {})
+                    if any(float(t_) == float(e['time']) for t_ in top_) or \
+                            any(sets_key_at(ev, float(e['time'])) for ev in (spec.get('events') or []) + (spec.get('added_events') or []) if ev is not e):
+                        res.count('split-with-simultaneous-explicit-rate (oracle not applicable)')
                         continue
                     der, anc = pops.index(e['derived']), pops.index(e['ancestral'])
                     for ep in eps:
